@@ -282,3 +282,8 @@ func vxMakeColLite(typ string, P int) vxCol {
 	}
 	return c
 }
+
+// vxFloatSame: equal as values, NaN equal to NaN (fork free).
+func vxFloatSame(x, y float64) bool {
+	return vx.Or(x == y, vx.And(x != x, y != y))
+}
